@@ -88,6 +88,13 @@ let rec unit_ops (u : (M.n list * (M.n list * M.n list) list) list) (errs : int)
 
 let run (op : string) (f : string list) : string =
   match op, f with
+  | "cleaned", [p] -> ok [of_str (M.cleaned (to_str p))]
+  | "absolute_from", [p; r] -> (match M.absolute_from (to_str p) (to_str r) with Some x -> ok [of_str x] | None -> "CWD")
+  | "absolute_from_unit", [p; u] -> (match M.absolute_from_unit (to_str p) (to_str u) with Some x -> ok [of_str x] | None -> "CWD")
+  | "specifier", [p] -> ok [tf (M.starts_with_systemd_specifier (to_str p))]
+  | "template_parts", [p] ->
+      let o = function Some v -> "S" ^ of_str v | None -> "N" in
+      let (a, b) = M.template_parts (to_str p) in ok [o a; o b]
   | "parse", [t] -> (match parse_text t with M.Ok u -> ok (dump_unit u) | M.Err -> "ERR\tUnit" | M.OutOfFuel -> "MODELFAIL\t" ^ hex "fuel")
   | "render", [t] -> (match parse_text t with
       | M.Ok u -> ok [of_str (M.to_string u); of_str (List.concat (M.write_calls u))]
